@@ -16,10 +16,12 @@ EPS = np.finfo(float).eps
 # Krylov solve sits at 1e6x
 AMPLIFY = 200.0
 SHIFTS = [-5.0, 1e-3, 1.0, 123.456, 1e4]
-GRIDS = [("uniform", 20, 2.0), ("quadratic", 25, 3.0), ("geometric", 25, 0), ("irregular", 20, 3.0)]
-CONFIGS = [("ideal", None, 1000.0, 8000.0), ("single", "T_ship_gas", 100.0, 8000.0),
-           ("single", "T_ship_gas", 7900.0, 8000.0), ("single", "A_kink", 4000.0, 8000.0),
-           ("single", "S_zdip", 7000.0, 8000.0)]
+GRIDS = [("uniform", 20, 2.0), ("quadratic", 25, 3.0), ("geometric", 25, 0), ("irregular", 20, 3.0),
+         ("integer", 12, 0)]
+# non-integer pressures on purpose: an integer-dtype time grid must not leak its dtype into them
+CONFIGS = [("ideal", None, 1000.37, 8000.0), ("single", "T_ship_gas", 100.37, 8000.0),
+           ("single", "T_ship_gas", 7900.37, 8000.0), ("single", "A_kink", 4000.37, 8000.0),
+           ("single", "S_zdip", 7000.37, 8000.0)]
 
 
 def cases(tier, seed):
